@@ -383,6 +383,17 @@ func genCase(t *rapid.T) Case {
 			m.Nodes = append(m.Nodes, ch)
 		}
 	}
+	uniqGadget := g.Chance(1, 3, "uniqgadget") && len(c.Mods[0].Nodes) > 0
+	if uniqGadget {
+		// unique sets over leaves whose names hold numbers: "port10" sorts after "port9" naturally and before it
+		// character by character; the entries also hold those neighbours
+		str := func() *sg.TypeSpec { return &sg.TypeSpec{Name: "string"} }
+		l := func(n string) *sg.Node { return &sg.Node{Kind: "leaf", Name: n, Type: str()} }
+		gl := &sg.Node{Kind: "list", Name: "gu-list", Key: "k", Uniques: []string{"port10", "addr/v10 addr/v4"},
+			Kids: []*sg.Node{l("k"), l("port2"), l("port9"), l("port10"), l("port100"), {Kind: "container", Name: "addr", Kids: []*sg.Node{l("v4"), l("v6"), l("v10")}}}}
+		top := c.Mods[0].Nodes[0]
+		top.Kids = append([]*sg.Node{gl}, top.Kids...)
+	}
 	nested := g.Chance(1, 3, "nestgadget") && len(c.Mods[0].Nodes) > 0
 	if nested {
 		// a choice inside a case of another choice, mandatory leaves in the outer case and in the nested case: the outer
@@ -406,6 +417,46 @@ func genCase(t *rapid.T) Case {
 	_, tops := w.tops()
 	x := &gen{g, w}
 	c.Data = x.kids(tops, 4)
+	if uniqGadget && g.Chance(3, 4, "uniqdata") {
+		gl := &D{Name: "gu-list"}
+		n := 2 + g.Pick(3, "uniqentries")
+		for i := 0; i < n; i++ {
+			e := &D{Name: fmt.Sprintf("e%d", i), Kids: []*D{{Name: "k", Vals: []string{fmt.Sprintf("e%d", i)}}}}
+			for _, ln := range []string{"port2", "port9", "port10", "port100"} {
+				if g.Chance(3, 4, "uniqleaf") {
+					e.Kids = append(e.Kids, &D{Name: ln, Vals: []string{[]string{"a", "b", "c"}[g.Pick(3, "uniqval")]}})
+				}
+			}
+			if g.Chance(3, 4, "uniqaddr") {
+				a := &D{Name: "addr"}
+				for _, ln := range []string{"v4", "v6", "v10"} {
+					if g.Chance(3, 4, "uniqaddrleaf") {
+						a.Kids = append(a.Kids, &D{Name: ln, Vals: []string{[]string{"x", "y"}[g.Pick(2, "uniqaddrval")]}})
+					}
+				}
+				e.Kids = append(e.Kids, a)
+			}
+			gl.Kids = append(gl.Kids, e)
+		}
+		top := c.Mods[0].Nodes[0]
+		var topD *D
+		for _, d := range c.Data {
+			if d.Name == top.Name {
+				topD = d
+			}
+		}
+		if topD == nil {
+			topD = &D{Name: top.Name}
+			c.Data = append(c.Data, topD)
+		}
+		var kept []*D
+		for _, k := range topD.Kids {
+			if k.Name != "gu-list" {
+				kept = append(kept, k)
+			}
+		}
+		topD.Kids = append(kept, gl)
+	}
 	if nested && g.Chance(3, 4, "nestdata") {
 		pats := [][]string{{"gn-p"}, {"gn-p", "gn-pm"}, {"gn-p", "gn-xm"}, {"gn-p", "gn-pm", "gn-xm"}, {"gn-xa", "gn-p"}, {"gn-q", "gn-xm"}, {"gn-q"}, {"gn-y"}, {}, {"gn-pm"}, {"gn-xa", "gn-xm"}}
 		box := &D{Name: "gn-box"}
